@@ -1,0 +1,143 @@
+//go:build verif
+
+// Contracts for the KZG scheme of this curve (comment-only; installed by /verif/gcv gen-contracts).
+// Layer: scalars are elements of an abstract commutative ring (fr.Element), *big.Int cells hold mathematical
+// integers, group elements and pairing lines are values of uninterpreted sorts; multi-exponentiation, scalar
+// multiplication, point addition and the pairing check are opaque calls whose arguments and results are captured
+// at the call site. horner(a, v, k, n) = a[k] + v*(a[k+1] + ...) is the value at v of the tail k..n-1 of a.
+
+package kzg
+
+//@ func eval
+//@ layer ring fr.Element
+//@ smt (define-fun-rec horner ((a (Array Int Int)) (v Int) (k Int) (n Int)) Int (ite (>= k n) 0 (+ (select a k) (* v (horner a v (+ k 1) n)))))
+//@ smt-fun horner Int
+//@ requires len(p) >= 1
+//@ loop 0
+//@ + invariant[tail] -1 <= i && i <= len(p) - 2 && n == len(p) && res == ufint_horner(p, point, i+1, len(p))
+//@ ensures[value] result == ufint_horner(p, point, 0, len(p))
+//@ modifies nothing
+//@ end
+
+//@ func dividePolyByXminusA
+//@ layer ring fr.Element
+//@ smt (define-fun-rec horner ((a (Array Int Int)) (v Int) (k Int) (n Int)) Int (ite (>= k n) 0 (+ (select a k) (* v (horner a v (+ k 1) n)))))
+//@ smt-fun horner Int
+//@ requires len(f) >= 1
+//@ loop 0
+//@ + invariant[suffix] -1 <= i && i <= len(f) - 2 && len(f) == old(len(f)) && forall(j, i+1, len(f), f[j] == ufint_horner(old(f), a, j, len(f)) - ite(j == 0, fa, 0)) && forall(j, 0, i+1, f[j] == old(f[j]) - ite(j == 0, fa, 0))
+//@ ensures[quotient] len(result) == len(f) - 1 && forall(j, 0, len(f) - 1, result[j] == ufint_horner(old(f), a, j+1, len(f)))
+//@ ensures[remainder] f[0] == ufint_horner(old(f), a, 0, len(f)) - fa
+//@ modifies f
+//@ end
+
+//@ func Commit
+//@ layer ring fr.Element opaque bls24317.G1Affine
+//@ option opaque-calls
+//@ option nomerge
+//@ ghost msm = false
+//@ ghost msmok = false
+//@ cut after call MultiExp #1
+//@ + ghost msm = len(callarg1) == len(p) && len(callarg2) == len(p)
+//@ + ghost msmok = isnil(callresult1)
+//@ ensures[size] (len(p) == 0 || len(p) > len(pk.G1)) ==> result1 == ErrInvalidPolynomialSize
+//@ ensures[accept] isnil(result1) ==> 1 <= len(p) && len(p) <= len(pk.G1) && msm && msmok
+//@ ensures[complete] 1 <= len(p) && len(p) <= len(pk.G1) && !isnil(result1) ==> msm && !msmok
+//@ modifies nothing
+//@ end
+
+//@ func Open
+//@ layer ring fr.Element opaque bls24317.G1Affine
+//@ option opaque MultiExp
+//@ option nomerge
+//@ smt (define-fun-rec horner ((a (Array Int Int)) (v Int) (k Int) (n Int)) Int (ite (>= k n) 0 (+ (select a k) (* v (horner a v (+ k 1) n)))))
+//@ smt-fun horner Int
+//@ ensures[size] (len(p) == 0 || len(p) > len(pk.G1)) ==> result1 == ErrInvalidPolynomialSize
+//@ ensures[value] isnil(result1) ==> result0.ClaimedValue == ufint_horner(p, point, 0, len(p))
+//@ ensures[constant] len(p) == 1 && 1 <= len(pk.G1) ==> isnil(result1)
+//@ ensures[input] forall(j, 0, len(p), p[j] == old(p[j]))
+//@ modifies nothing
+//@ end
+
+//@ func Verify
+//@ layer ring fr.Element bigint big.Int opaque bls24317.G1Affine bls24317.G1Jac bls24317.G2Affine bls24317.LineEvaluationAff
+//@ option opaque-calls
+//@ option nomerge
+//@ ghost jsm = false
+//@ ghost s1 = 0
+//@ ghost s2 = 0
+//@ ghost fromaff = false
+//@ ghost subbed = false
+//@ ghost tojac = false
+//@ ghost pcok = false
+//@ ghost pcargs = false
+//@ cut after call JointScalarMultiplication #1
+//@ + ghost jsm = same(callarg0, &totalG1) && *callarg1 == vk.G1 && *callarg2 == proof.H
+//@ + ghost s1 = *callarg3
+//@ + ghost s2 = *callarg4
+//@ cut after call FromAffine #1
+//@ + ghost fromaff = same(callarg0, &commitmentJac) && *callarg1 == *commitment
+//@ cut after call SubAssign #1
+//@ + ghost subbed = same(callarg0, &totalG1) && same(callarg1, &commitmentJac)
+//@ cut after call FromJacobian #1
+//@ + ghost tojac = same(callarg0, &totalG1Aff) && same(callarg1, &totalG1)
+//@ cut after call PairingCheckFixedQ #1
+//@ + ghost pcok = callresult0 && isnil(callresult1)
+//@ + ghost pcargs = len(callarg0) == 2 && callarg0[0] == totalG1Aff && callarg0[1] == proof.H && len(callarg1) == 2
+//@ ensures[scalars] isnil(result) ==> jsm && s1 == toint(proof.ClaimedValue) && s2 == toint(-point)
+//@ ensures[commitment] isnil(result) ==> fromaff && subbed && tojac
+//@ ensures[pairing] isnil(result) ==> pcok && pcargs
+//@ ensures[reject] !pcok ==> !isnil(result)
+//@ modifies nothing
+//@ end
+
+//@ func fold
+//@ layer ring fr.Element opaque bls24317.G1Affine
+//@ option opaque MultiExp
+//@ option nomerge
+//@ smt (define-fun-rec vdot ((a (Array Int Int)) (b (Array Int Int)) (n Int)) Int (ite (<= n 0) 0 (+ (* (select a (- n 1)) (select b (- n 1))) (vdot a b (- n 1)))))
+//@ smt-fun vdot Int
+//@ requires len(fai) >= len(di) && len(ci) >= len(di)
+//@ ghost msm = false
+//@ cut after call MultiExp #1
+//@ + ghost msm = len(callarg1) == len(di) && len(callarg2) == len(ci)
+//@ loop 0
+//@ + invariant[prefix] 0 <= i && i <= nbDigests && nbDigests == len(di) && foldedEvaluations == ufint_vdot(fai, ci, i)
+//@ ensures[evaluations] result1 == ufint_vdot(fai, ci, len(di))
+//@ ensures[digests] msm
+//@ modifies nothing
+//@ end
+
+//@ func FoldProof
+//@ layer ring fr.Element opaque bls24317.G1Affine
+//@ option opaque deriveGamma MultiExp
+//@ option nomerge
+//@ smt (define-fun-rec vdot ((a (Array Int Int)) (b (Array Int Int)) (n Int)) Int (ite (<= n 0) 0 (+ (* (select a (- n 1)) (select b (- n 1))) (vdot a b (- n 1)))))
+//@ smt-fun vdot Int
+//@ smt (define-fun-rec rpow ((x Int) (n Int)) Int (ite (<= n 0) 1 (* x (rpow x (- n 1)))))
+//@ smt-fun rpow Int
+//@ ghost gamma0 = 0
+//@ cut after call deriveGamma #1
+//@ + ghost gamma0 = callresult0
+//@ loop 0
+//@ + invariant[powers] 2 <= i && len(gammai) == nbDigests && nbDigests == len(digests) && nbDigests == len(batchOpeningProof.ClaimedValues) && gamma == gamma0 && forall(j, 0, min(i, nbDigests), gammai[j] == ufint_rpow(gamma0, j))
+//@ ensures[sizes] len(digests) != len(batchOpeningProof.ClaimedValues) ==> result2 == ErrInvalidNbDigests
+//@ ensures[empty] len(digests) == 0 ==> !isnil(result2)
+//@ ensures[proof] isnil(result2) ==> result0.H == batchOpeningProof.H
+//@ modifies nothing
+//@ end
+
+//@ func BatchVerifySinglePoint
+//@ layer ring fr.Element bigint big.Int opaque bls24317.G1Affine bls24317.G1Jac bls24317.G2Affine bls24317.LineEvaluationAff
+//@ option nomerge
+//@ ghost folded = false
+//@ ghost verified = false
+//@ cut after call FoldProof #1
+//@ + ghost folded = isnil(callresult2)
+//@ cut after call Verify #1
+//@ + ghost verified = isnil(callresult)
+//@ ensures[sizes] len(digests) != len(batchOpeningProof.ClaimedValues) ==> result == ErrInvalidNbDigests
+//@ ensures[empty] len(digests) == 0 ==> !isnil(result)
+//@ ensures[accept] isnil(result) ==> folded && verified
+//@ modifies nothing
+//@ end
